@@ -18,6 +18,7 @@ import (
 	"github.com/kercylan98/vivid/internal/remoting"
 	"github.com/kercylan98/vivid/internal/remoting/serialize"
 	"github.com/kercylan98/vivid/pkg/log"
+	"github.com/kercylan98/vivid/pkg/ves"
 )
 
 // Engine framing: the real per-connection reader actor fed through net.Pipe with exact chunk
@@ -195,6 +196,12 @@ func (e *framingEngine) Exec(line string) (obs string, viol string) {
 		var k, n, pad int
 		fmt.Sscanf(strings.Join(tk[1:], " "), "%d %d %d", &k, &n, &pad)
 		return "-", meshBurst(k, n, pad)
+	case "pace":
+		// pace <gap ms> <duration ms>: one sender, one message every gap, for the whole duration (a link that
+		// stays healthy for longer than any handshake-time deadline)
+		var gap, dur int
+		fmt.Sscanf(strings.Join(tk[1:], " "), "%d %d", &gap, &dur)
+		return "-", pacedStream(time.Duration(gap)*time.Millisecond, time.Duration(dur)*time.Millisecond)
 	case "soak":
 		// one message before and one after the 10 s mark on an otherwise idle, healthy link
 		return "-", loopbackBurst(1, 1, 10500*time.Millisecond)
@@ -327,6 +334,67 @@ func loopbackBurst(n, senders int, gap time.Duration) string {
 	return ""
 }
 
+// pacedStream: a steady trickle over one healthy loopback connection; every message must arrive
+// exactly once and in order, and the connection must not be torn down on the way.
+func pacedStream(gap, dur time.Duration) string {
+	pa := int(atomic.AddInt32(&fbPort, 2))
+	addrA, addrB := fmt.Sprintf("127.0.0.1:%d", pa), fmt.Sprintf("127.0.0.1:%d", pa+1)
+	var mu sync.Mutex
+	var got []int64
+	closed := 0
+	mk := func(addr string) (*actor.System, context.CancelFunc, error) {
+		ctx, cancel := context.WithCancel(context.Background())
+		s := actor.NewSystem(vivid.WithActorSystemContext(ctx), vivid.WithActorSystemLogger(log.NewSilentLogger()),
+			vivid.WithActorSystemRemoting(addr), vivid.WithActorSystemCodec(fbCodec{}))
+		return s, cancel, s.Start()
+	}
+	a, ca, err := mk(addrA)
+	if err != nil {
+		return "HARNESS: " + err.Error()
+	}
+	defer func() { go a.Stop(time.Second); ca() }()
+	b, cb, err := mk(addrB)
+	if err != nil {
+		return "HARNESS: " + err.Error()
+	}
+	defer func() { go b.Stop(time.Second); cb() }()
+	b.ActorOf(vivid.ActorFN(func(c vivid.ActorContext) {
+		switch m := c.Message().(type) {
+		case *vivid.OnLaunch:
+			c.EventStream().Subscribe(c, ves.RemotingConnectionClosedEvent{})
+		case ves.RemotingConnectionClosedEvent:
+			mu.Lock()
+			closed++
+			mu.Unlock()
+		case *fbMsg:
+			mu.Lock()
+			got = append(got, m.Seq)
+			mu.Unlock()
+		}
+	}), vivid.WithActorName("sink"))
+	target, _ := a.CreateRef(addrB, "/sink")
+	n := 0
+	for end := time.Now().Add(dur); time.Now().Before(end); n++ {
+		a.Tell(target, &fbMsg{Seq: int64(n)})
+		time.Sleep(gap)
+	}
+	time.Sleep(300 * time.Millisecond)
+	mu.Lock()
+	defer mu.Unlock()
+	for i, x := range got {
+		if x != int64(i) {
+			return fmt.Sprintf("LOOPBACK: paced stream (one message every %v for %v over a healthy loopback link): position %d holds message %d — lost / duplicated / reordered; %d of %d arrived, %d connection-closed events", gap, dur, i, x, len(got), n, closed)
+		}
+	}
+	if len(got) != n {
+		return fmt.Sprintf("LOOPBACK: paced stream (one message every %v for %v over a healthy loopback link): %d sent, %d arrived, %d connection-closed events", gap, dur, n, len(got), closed)
+	}
+	if closed > 0 {
+		return fmt.Sprintf("LOOPBACK: paced stream: the healthy connection was torn down %d time(s) during %v of steady traffic", closed, dur)
+	}
+	return ""
+}
+
 // ---------------------------------------------------------------- generation
 
 func hexChunks(stream []byte, cuts []int) string {
@@ -434,6 +502,8 @@ func (e *framingEngine) Generate(c *Ctx) {
 		c.Case("mesh 4 300 262144")
 		c.Case("mesh 5 2000 100")
 		c.Case("mesh 2 3 4194000")
+		c.Case("pace 5 11500")
+		c.R.Hit("pace")
 		c.Case("burst 5000 4")
 		c.Case("soak")
 		c.R.Hit("soak")
